@@ -63,7 +63,11 @@ def check_case(case, ctx):
     contracts.take()
     if case["op"] == "history":
         plain, nonce, stub = case["plain"], case["nonce"], case["stub"]
-        enc, off = P.xorencode(plain, nonce, stub=stub, marker=case.get("marker", True))
+        # the view is opened with an explicit nonce offset: the size field need not describe the region and bytes may follow it
+        enc, off = P.xorencode(plain, nonce, stub=stub, marker=case.get("marker", True), size_ok=case.get("size_ok", True),
+                               trailing=case.get("trailing", b""))
+        if case.get("trailing"):
+            plain = plain + P_decode_trailing(case["trailing"], enc, off, len(plain))
         ctx.mon("history.model")
         before = contracts.evaluations["XorEncodedFile.read.position"]
         tmp = None
@@ -93,7 +97,7 @@ def check_case(case, ctx):
         ops = case["ops"]
         nt = any(o[0] == "read" and (o[1] is None or o[1] != 0) for o in ops) and len(plain) > 0
         ctx.ok(fp=(enc, repr(ops)), nontrivial=nt, case=case, classes=(
-            f"len%4={len(plain) % 4}", "file:real" if case.get("realfile") else "file:bytesio",
+            f"len%4={len(plain) % 4}", f"sizefield:{'ok' if case.get('size_ok', True) and not case.get('trailing') else 'inconsistent'}", "file:real" if case.get("realfile") else "file:bytesio",
             *{f"op:{o[0]}{'' if o[0] != 'seek' else o[2]}" for o in ops}))
     elif case["op"] == "detect":
         plain, nonce, stub = case["plain"], case["nonce"], case["stub"]
@@ -223,7 +227,9 @@ def run_shard(shard, ctx):
             nonce = rng.choice([rng.randbytes(4), rng.randbytes(4), b"\0\0\0\0", b"\xff\xff\xff\xff"])
             stub = P.filler(rng, rng.choice([0, 0, 1, 57, rng.randrange(0, 1001)]))
             ops = gen_ops(rng, plen, rng.randrange(1, 61))
-            check_case({"op": "history", "plain": plain, "nonce": nonce, "stub": stub, "ops": ops,
+            trailing = P.filler(rng, rng.randrange(1, 30)) if rng.random() < 0.15 else b""
+            ops = gen_ops(rng, plen + len(trailing), len(ops)) if trailing else ops
+            check_case({"op": "history", "plain": plain, "nonce": nonce, "stub": stub, "ops": ops, "size_ok": rng.random() < 0.7, "trailing": trailing,
                         "marker": rng.random() < 0.5, "realfile": rng.random() < 0.03}, ctx)
     elif kind == "detect":
         for i in range(shard["n"]):
@@ -240,6 +246,9 @@ def run_shard(shard, ctx):
             size_ok = rng.random() < 0.6
             trailing = b"" if rng.random() < 0.7 else P.filler(rng, rng.randrange(1, 40))
             stub = P.filler(rng, rng.choice([0, 1, 57, rng.randrange(0, 1021 - (3 if marker else 0))]))
+            if rng.random() < 0.25:
+                # nonce offsets at the very end of the documented search range (first 1024 bytes)
+                stub = P.filler(rng, rng.choice([1012, 1013, 1014, 1015, 1016, 1017] if marker else [1016, 1017, 1018, 1019, 1020, 1021, 1022, 1023]))
             if marker and size_ok and not trailing and rng.random() < 0.4 and len(stub) >= 4:
                 # decoy end-of-stub markers inside the stub: the offset confirmed by marker AND size field must still win
                 b = bytearray(stub)
